@@ -75,7 +75,7 @@ type Line struct {
 	NoPost bool             `json:"nopost,omitempty"`
 }
 
-var vars = []string{"a", "b", "c", "m", "n", "ta", "st", "s", "t", "tm", "sv"}
+var vars = []string{"a", "b", "c", "m", "n", "ta", "st", "s", "t", "tm", "sv", "su"}
 var sliceVars = []string{"a", "b", "c", "ta"}
 var nilV = V{T: "nil"}
 
@@ -161,6 +161,12 @@ func src(o Op) string {
 		return o.Y + " = " + o.X + "." + o.S
 	case "getvar":
 		return o.X
+	case "callget":
+		return "rdA(" + o.X + ")"
+	case "structnew2":
+		return o.X + " = make(U)"
+	case "concat":
+		return o.X + " = " + o.Y + " + " + o.K.S
 	case "aliasfield":
 		return o.Y + " = " + o.X + ".M"
 	case "fieldmapget":
@@ -207,7 +213,7 @@ func newWorld() *world {
 	for _, n := range vars {
 		e.Define(n, nil)
 	}
-	if _, err := vm.Execute(e, nil, "wr = func(s) { s[0] = 7 }\nkk = [[1]]\nkm = {\"k\": {\"z\": 1}}\nmake(type T, make(struct { A int64, B string, M map[string]int64 }))"); err != nil {
+	if _, err := vm.Execute(e, nil, "wr = func(s) { s[0] = 7 }\nkk = [[1]]\nkm = {\"k\": {\"z\": 1}}\nmake(type T, make(struct { A int64, B string, M map[string]int64 }))\nmake(type U, make(struct { M map[string]int64, B string, A int64 }))\nrdA = func(v) { return v.A }"); err != nil {
 		panic(err)
 	}
 	return &world{e}
@@ -271,6 +277,9 @@ func (w *world) observe(l *Line) {
 				l.Maps[n] = pairs
 			case reflect.Struct:
 				p.T = "struct"
+				if n != "st" { // the recorded fields are those of st; su is observed through reads
+					break
+				}
 				l.Fields["A"] = proj(rv.FieldByName("A").Interface())
 				l.Fields["B"] = proj(rv.FieldByName("B").Interface())
 				if mf := rv.FieldByName("M"); mf.IsValid() && mf.Kind() == reflect.Map && !mf.IsNil() {
@@ -347,14 +356,14 @@ func (w *world) do(o Op) Line {
 		r.K = "panic"
 	case err != nil:
 		r.K = "err"
-	case o.Op == "read" || o.Op == "mapget" || o.Op == "len" || o.Op == "in" || o.Op == "fieldget" || o.Op == "fieldmapget" || o.Op == "getvar":
+	case o.Op == "read" || o.Op == "mapget" || o.Op == "len" || o.Op == "in" || o.Op == "fieldget" || o.Op == "fieldmapget" || o.Op == "getvar" || o.Op == "callget":
 		r.K = "val"
 		r.V = proj(res)
 	}
 	l.Res = &r
 	w.observe(&l)
 	// the capacity a growing append chose is part of the log
-	if o.Op == "append" || o.Op == "write" {
+	if o.Op == "append" || o.Op == "write" || o.Op == "concat" {
 		o.Cap = l.Post[o.X].Cap
 	}
 	oo := o
@@ -513,6 +522,15 @@ func opPool(rng *rand.Rand, w *world) Op {
 		return Op{Op: "structnew", X: "st"}
 	case 24:
 		switch rng.Intn(11) {
+		case 5:
+			if rng.Intn(2) == 0 {
+				return Op{Op: "structnew2", X: "su"}
+			}
+			return Op{Op: "callget", X: []string{"st", "su"}[rng.Intn(2)]}
+		case 6:
+			return Op{Op: "fieldset", X: "su", S: []string{"A", "B"}[rng.Intn(2)], V: []V{intV(5), strV("z")}[rng.Intn(2)]}
+		case 7:
+			return Op{Op: "concat", X: "c", Y: []string{"a", "b"}[rng.Intn(2)], K: strV([]string{"ta", "a", "b"}[rng.Intn(3)])}
 		case 8:
 			return Op{Op: "bindfield", X: "st", Y: "sv", S: []string{"A", "B"}[rng.Intn(2)]}
 		case 9:
